@@ -155,3 +155,123 @@ def good_split(ctx):
         ctx.oblige(f"P8-proper-split#{i}", s, z3.And(ln(new.term) > 1, ln(new.term) < ln(body)))
     ctx.cover("some-accepting-path", [z3.BoolVal(n_some > 0)])
     ctx.inputs.clear()
+
+
+@unit("C16.project_rule", "C16", "ngo.projection:ProjectionTranslator.project_rule", fallback={"mirror": "corpus", "trait": "projection"})
+def project_rule(ctx):
+    """project_rule returns either the rule unchanged or exactly two rules: an auxiliary rule whose head is a positive atom
+    over a *fresh* predicate applied to the interface variables good_split returned and whose body is the moved subset,
+    and the original rule with the same head whose body is the literals that were not moved followed by that atom;
+    moved and remaining literals are literals of the original body and every original literal is in one of the two"""
+    ex, m = ctx.ex, ctx.m
+    A = m.AST
+    S = m.enums["Sign"][1]
+    wf = wf_of(ctx)
+    st = ctx.state()
+    stm = ctx.sym("stm", "ast")
+    st.assume(wf.wf("Rule", stm.term, 1))
+    body = A.Rule_body(stm.term)
+    ln, at = m.lst_funcs("ast")
+    LL = ("list", LA)
+    subsets_f = ex.ufunc("largest_subset", [m.sort(LA)], m.sort(LL))
+    lnL, atL = m.lst_funcs(LA)
+
+    def largest_subset(e, s, a, k):
+        t = e.to_term(s, a[0], LA)
+        i, j, kk = z3.Int(f"i!ls{fresh_id()}"), z3.Int(f"j!ls{fresh_id()}"), z3.Int(f"k!ls{fresh_id()}")
+        sub = atL(subsets_f(t), i)
+        s.assume(z3.ForAll([i, j], z3.Implies(z3.And(0 <= i, i < lnL(subsets_f(t)), 0 <= j, j < ln(sub)), z3.Exists([kk], z3.And(0 <= kk, kk < ln(t), at(t, kk) == at(sub, j)))), patterns=[at(sub, j)]))
+        return [(s, s.alloc(ListObj(sv=SV(subsets_f(t), LL))))]
+
+    ex.overrides["ngo.utils.ast:largest_subset"] = largest_subset
+    ctx.assume_note("largest_subset is uninterpreted: assumed to return sequences whose elements are elements of its argument")
+
+    def good_split_stub(e, s, a, k):
+        s2 = s.fork()
+        sv = e.fresh(s2, "split_vars", LA)
+        s2.log.append(("good_split", a[1], a[2], sv))
+        return [(s, None), (s2, s2.alloc(ListObj(sv=sv)))]
+
+    ex.overrides["ngo.projection:ProjectionTranslator.good_split"] = good_split_stub
+    known = ctx.sym("known_predicates", ("set", ("rec", "Predicate")))
+
+    def new_aux(e, s, a, k):
+        p = e.fresh(s, "aux_pred", ("rec", "Predicate"))
+        s.assume(z3.Not(z3.Select(known.term, p.term)), m.rec_acc("Predicate", "arity")(p.term) == e.to_term(s, a[1], "int"))
+        s.log.append(("new_auxpredicate", p))
+        return [(s, p)]
+
+    ex.overrides["ngo.utils.globals:UniqueNames.new_auxpredicate"] = new_aux
+    ctx.assume_note("good_split and new_auxpredicate are used through their contracts (C16.good_split, C07.new_auxpredicate)")
+    un = ctx.new_object(st, "UniqueNames", auxcounter=0, predicates=st.alloc(SetObj(sv=known)))
+    me = ctx.new_object(st, "ProjectionTranslator", unique_names=un)
+    res = ctx.call(st, ctx.method("ngo.projection", "ProjectionTranslator", "project_rule", me), [stm])
+    ok, bad = returned(res)
+    ctx.cover("reach", st)
+    no_raise(ctx, "no-raise", res)
+    j, kq = z3.Int("j!pr"), z3.Int("k!pr")
+    inlist = lambda lst, x: z3.Exists([kq], z3.And(0 <= kq, kq < ln(lst), at(lst, kq) == x))
+    n_split = 0
+    for n, (s, r) in enumerate(ok):
+        items = ex.B.concrete_items(s, r)
+        if items is None:
+            ctx.oblige(f"result-shape#{n}", s, z3.BoolVal(False))
+            continue
+        if len(items) == 1:
+            ctx.oblige(f"unchanged#{n}", s, items[0].term == stm.term, kind="frame", replay={"mirror": "project_rule"})
+            continue
+        n_split += 1
+        calls = [e for e in s.log if e[0] == "new_auxpredicate"]
+        gs = [e for e in s.log if e[0] == "good_split"]
+        okshape = len(items) == 2 and len(calls) == 1 and len(gs) >= 1
+        ctx.oblige(f"two-rules-one-fresh-predicate#{n}", s, z3.BoolVal(bool(okshape)), replay={"mirror": "project_rule"})
+        if not okshape:
+            continue
+        aux, upd = items[0].term, items[1].term
+        p = calls[0][1].term
+        _g, new_v, rest_v, split = gs[-1]
+        new_t, rest_t = ex.to_term(s, new_v, LA), ex.to_term(s, rest_v, LA)
+        head = A.Rule_head(aux)
+        sym = A.SymbolicAtom_symbol(A.Literal_atom(head))
+        ctx.oblige(
+            f"aux-rule#{n}",
+            s,
+            z3.And(
+                A.is_Rule(aux),
+                A.is_Literal(head),
+                A.Literal_sign(head) == S["NoSign"],
+                A.is_SymbolicAtom(A.Literal_atom(head)),
+                A.is_Function(sym),
+                A.Function_name(sym) == m.rec_acc("Predicate", "name")(p),
+                A.Function_arguments(sym) == split.term,
+                ln(split.term) == m.rec_acc("Predicate", "arity")(p),
+                ln(A.Rule_body(aux)) == ln(new_t),
+                z3.ForAll([j], z3.Implies(z3.And(0 <= j, j < ln(new_t)), at(A.Rule_body(aux), j) == at(new_t, j))),
+            ),
+            replay={"mirror": "project_rule"},
+        )
+        ub = A.Rule_body(upd)
+        ctx.oblige(
+            f"updated-rule#{n}",
+            s,
+            z3.And(
+                A.is_Rule(upd),
+                A.Rule_head(upd) == A.Rule_head(stm.term),
+                ln(ub) == ln(rest_t) + 1,
+                at(ub, ln(rest_t)) == head,
+                z3.ForAll([j], z3.Implies(z3.And(0 <= j, j < ln(rest_t)), at(ub, j) == at(rest_t, j))),
+            ),
+            replay={"mirror": "project_rule"},
+        )
+        ctx.oblige(
+            f"partition#{n}",
+            s,
+            z3.And(
+                z3.ForAll([j], z3.Implies(z3.And(0 <= j, j < ln(new_t)), inlist(body, at(new_t, j)))),
+                z3.ForAll([j], z3.Implies(z3.And(0 <= j, j < ln(rest_t)), z3.And(inlist(body, at(rest_t, j)), z3.Not(inlist(new_t, at(rest_t, j)))))),
+                z3.ForAll([j], z3.Implies(z3.And(0 <= j, j < ln(body)), z3.Or(inlist(new_t, at(body, j)), inlist(rest_t, at(body, j))))),
+            ),
+            replay={"mirror": "project_rule"},
+        )
+    ctx.cover("some-split-path", [z3.BoolVal(n_split > 0)])
+    ctx.inputs = {"stm": stm}
